@@ -1377,4 +1377,27 @@ example : (parse cfgT [72, 84, 84, 80, 58, 47, 47, 85, 58, 80, 64, 48, 88, 55, 1
 example : (parse cfgT [104, 116, 116, 112, 58, 47, 47, 85, 58, 80, 64, 49, 50, 55, 46, 48, 46, 48, 46, 49, 47, 97, 47, 37, 65, 70, 63, 113, 43, 120]).bind URLInfo.url
     = .ok [104, 116, 116, 112, 58, 47, 47, 85, 58, 80, 64, 49, 50, 55, 46, 48, 46, 48, 46, 49, 47, 97, 47, 37, 65, 70, 63, 113, 43, 120] := by decide
 
+/-! ## the recorded finding: re-normalising with the same non-UTF-8 document encoding -/
+
+/-- a latin-1 configuration, `unquote` given on the three texts the witness needs
+(`%E9` → é, `%C3%A9` → Ã©, and the next round) -/
+def cfgLatin1 : Cfg :=
+  { defaultScheme := some sHttp, encode := latin1Enc, lowerNA := id,
+    idnaNA := fun _ => .error .UnicodeError, ipv6 := fun _ => .error .AddressValueError,
+    unquote := fun x =>
+      if x = [37, 69, 57] then [0xE9]
+      else if x = [37, 67, 51, 37, 65, 57] then [0xC3, 0xA9]
+      else x }
+
+/-- **Known finding (KNOWN_FINDINGS.txt, kind not-idempotent-same-encoding).**  `unquote_user` is a
+real restriction: with the *same* latin-1 configuration on both sides the user info is not a
+fixed point — `http://%E9@h/` → `http://%C3%A9@h/` → `http://%C3%83%C2%A9@h/`.  (`norm_idem` is about
+re-parsing with a configuration whose `unquote` inverts the UTF-8 percent-encoding, i.e. the default.) -/
+theorem norm_idem_same_encoding_counterexample :
+    (parse cfgLatin1 [104, 116, 116, 112, 58, 47, 47, 37, 69, 57, 64, 104, 47]).bind URLInfo.url
+      = .ok [104, 116, 116, 112, 58, 47, 47, 37, 67, 51, 37, 65, 57, 64, 104, 47] ∧
+    (parse cfgLatin1 [104, 116, 116, 112, 58, 47, 47, 37, 67, 51, 37, 65, 57, 64, 104, 47]).bind URLInfo.url
+      = .ok [104, 116, 116, 112, 58, 47, 47, 37, 67, 51, 37, 56, 51, 37, 67, 50, 37, 65, 57, 64, 104, 47] := by
+  decide
+
 end Wpull.Url
